@@ -469,6 +469,11 @@ class PSBaseParser:
             self._parse1 = self._parse_string_lf
             return i + 1
 
+        elif c not in (b"\r", b"\n"):
+            # A backslash before any other character is ignored, the
+            # character itself is kept (PDF 32000-1, 7.3.4.2)
+            self._curtoken += c
+
         # default action
         self._parse1 = self._parse_string
         return i + 1
@@ -526,6 +531,10 @@ class PSBaseParser:
                 # it by tacking on whitespace, and delay raising PSEOF
                 # until next time around
                 self.charpos = self._parse1(b"\n", 0)
+                if not self._tokens and self._parse1 != self._parse_main:
+                    # the scanner handed over to another one without
+                    # consuming the whitespace (a name ending in #xx)
+                    self.charpos = self._parse1(b"\n", 0)
                 self.eof = True
                 # Oh, so there wasn't actually a token there? OK.
                 if not self._tokens:
